@@ -24,6 +24,11 @@ CxMagicHellos == Concat([r \in 1..3 |-> Concat([x \in 1..4 |-> <<
 (* names: bytes, not text *)
 CxRep(s, n) == Concat([j \in 1..n |-> s])
 CxA(n) == [j \in 1..n |-> 97]
+(* the ASCII bytes of a string literal (only the characters used below) *)
+CxChars == "abcdefghijklmnopqrstuvwxyzABCDEFGHIJKLMNOPQRSTUVWXYZ0123456789-.*[]:%"
+CxCode(ch) == CASE ch \in 1..26 -> 96 + ch [] ch \in 27..52 -> 64 + (ch - 26) [] ch \in 53..62 -> 47 + (ch - 52)
+                [] ch = 63 -> 45 [] ch = 64 -> 46 [] ch = 65 -> 42 [] ch = 66 -> 91 [] ch = 67 -> 93 [] ch = 68 -> 58 [] ch = 69 -> 37
+CxStr(str) == [j \in 1..Len(str) |-> CxCode(CHOOSE ch \in 1..Len(CxChars) : SubSeq(CxChars, ch, ch) = SubSeq(str, j, j))]
 CxNames == << CxRep(<<195, 169>>, 128),                       \* 256 bytes of two-byte characters
               CxA(254) \o <<226, 130, 172>>,                  \* a three-byte character across bytes 255..257
               CxA(253) \o <<240, 159, 146, 169>> \o CxA(40),   \* a four-byte character across bytes 254..257
@@ -37,7 +42,12 @@ CxNames == << CxRep(<<195, 169>>, 128),                       \* 256 bytes of tw
               CxRep(<<195, 169>>, 150), CxA(1) \o CxRep(<<195, 169>>, 150),
               CxRep(<<226, 130, 172>>, 100), CxA(1) \o CxRep(<<226, 130, 172>>, 100), CxA(2) \o CxRep(<<226, 130, 172>>, 100),
               CxRep(<<240, 159, 146, 169>>, 75), CxA(1) \o CxRep(<<240, 159, 146, 169>>, 75), CxA(2) \o CxRep(<<240, 159, 146, 169>>, 75),
-              CxA(3) \o CxRep(<<240, 159, 146, 169>>, 75) >>
+              CxA(3) \o CxRep(<<240, 159, 146, 169>>, 75),
+              (* ASCII names a text-minded implementation may try to interpret: IDNA A-labels (well formed, degenerate, with extreme *)
+              (* digits), IP literals, wildcards, percent escapes, very long labels                                                  *)
+              CxStr("xn--mnchen-3ya.example"), CxStr("xn--9999999999"), CxStr("xn--"), CxStr("xn--a"), CxStr("XN--ZZZZZZZZZZZZZZZZZZZZ"),
+              CxStr("xn--99999999999999999999999999999999999999.xn--zzzzzzzzzzzzzzzz9"), CxStr("a.xn---.b"), CxStr("xn--0"),
+              CxStr("[::1]"), CxStr("127.0.0.1"), CxStr("*.example.com"), CxStr("%00%ff%zz"), CxStr("..") , CxA(63) \o <<46>> \o CxA(64) \o <<46>> \o CxA(200) >>
 CxSniVals == [k \in 1..Len(CxNames) |-> [t |-> "SNI", tag |-> 0, names |-> <<[nt |-> 0, name |-> CxNames[k]]>>]]
 CxAlpnVals == [k \in 1..7 |-> [t |-> "ALPN", tag |-> 16, protos |-> << <<CxRep(<<195, 169>>, 127)>>, <<CxA(253) \o <<195, 169>>>>,
                                                                     <<<<255>>, <<195>>, <<0>>>>,
